@@ -612,6 +612,7 @@ def translate_paths():
     srcs_c = [f]
     # --- TunnelCommunity.on_data(self, sock_addr, data, _)
     f = _method(comm, "on_data", ["self", "sock_addr", "data", "_"], COMM)
+    f_on_data_fn = f
     CIRC = "self.circuits.get(payload.circuit_id, None)"
     E2E = f"{CIRC}.ctype in [CIRCUIT_TYPE_RP_DOWNLOADER, CIRCUIT_TYPE_RP_SEEDER]"
     unpack = "self.serializer.unpack_serializable(DataPayload, data, offset=23)"
@@ -878,6 +879,34 @@ def translate_paths():
         raise TranslatorError(f"{COMM}:{oc_[0].lineno}: on_create calls join_circuit before its guards")
     meta["hand_modelled_shapes_checked"] = ["resolve", "datagram_received_ipv4", "datagram_received_ipv6", "enable/create_transports",
                                             "TunnelProtocol.datagram_received", "on_create guards"]
+
+    # --- the source address on_data sees must be the datagram's: nothing between the endpoint and on_data may rebind it
+    CR = "ipv8/messaging/anonymization/crypto.py"
+    pce = find_class(ast.parse((REPO / CR).read_text()), "PythonCryptoEndpoint")
+
+    def no_rebind(file, fn, name, must_contain):
+        stores = [n for n in ast.walk(fn) if isinstance(n, ast.Name) and n.id == name and isinstance(n.ctx, ast.Store)]
+        if len(stores) > (1 if fn.name == "on_packet" else 0):
+            raise TranslatorError(f"{file}:{fn.lineno}: {fn.name} rebinds `{name}` (the address a cell came from must reach on_data unchanged)")
+        txt_ = ast.unparse(fn)
+        for need in must_contain:
+            if need not in txt_:
+                raise TranslatorError(f"{file}:{fn.lineno}: {fn.name} no longer contains `{need}`")
+    no_rebind(CR, _method(pce, "on_packet", ["self", "packet", "warn_unknown"], CR), "source_address",
+              ["source_address, datagram = packet", "self.process_cell(source_address, datagram)"])
+    no_rebind(CR, _method(pce, "process_cell", ["self", "source_address", "data"], CR), "source_address",
+              ["self.tunnel_community.on_packet((source_address, cell.to_bin(self.prefix)))"])
+    no_rebind(COMM, _method(comm, "on_cell", ["self", "source_address", "data"], COMM), "source_address",
+              ["self.on_packet_from_circuit(source_address, cell.unwrap(self._prefix), cell.circuit_id)"])
+    no_rebind(COMM, opfc, "source_address", [])
+    for n in ast.walk(f_on_data_fn):
+        if isinstance(n, ast.Name) and n.id == "sock_addr" and isinstance(n.ctx, ast.Store):
+            raise TranslatorError(f"{COMM}:{n.lineno}: on_data rebinds sock_addr")
+    for n in ast.walk(_method(comm, "exit_data", ["self", "circuit_id", "sock_addr", "destination", "data"], COMM)):
+        if isinstance(n, ast.Name) and n.id == "sock_addr" and isinstance(n.ctx, ast.Store):
+            raise TranslatorError(f"{COMM}:{n.lineno}: exit_data rebinds sock_addr")
+    meta["source_address_path_checked"] = ["PythonCryptoEndpoint.on_packet", "process_cell", "TunnelCommunity.on_cell",
+                                           "on_packet_from_circuit", "on_data", "exit_data"]
 
     txt = "".join(ast.get_source_segment(es_src, f) or "" for f in srcs) + "".join(ast.get_source_segment(cm_src, f) or "" for f in srcs_c)
     head = ("/-\n  GENERATED by tools/gen_exitpolicy.py (part 2) from exit_socket.py and community.py — do not edit.\n"
